@@ -16,6 +16,8 @@ mod error;
 mod inmemory;
 mod server;
 mod storage;
+#[cfg(feature = "verif-hooks")]
+pub mod verif_sync;
 
 pub use error::*;
 pub use inmemory::*;
